@@ -606,6 +606,24 @@ class CatModel:
             l = it.fresh(s, 'T@strlen%s' % node_pos(n)[1], 'unsigned long')
         return [(s, l)]
 
+    def _span(self, name, args, s, it, n):
+        """strcspn / strspn: reads the string up to its terminator, returns a length in [0, strlen]"""
+        p = args[0]
+        l = self._strlen_of(p, s, it, n)
+        s.ev('lib', n, name=name, ptr=p, known=l is not None)
+        if l is None:
+            s.ev('ob', n, ob='strlen-unterminated', ok=None, ptr=p)
+        r = it.fresh(s, 'T@%s%s' % (name, node_pos(n)[1]), 'unsigned long')
+        if l is not None:
+            s.facts.assume_le(r.sub(l), 0)
+        return [(s, r)]
+
+    def lib_strcspn(self, args, s, it, n):
+        return self._span('strcspn', args, s, it, n)
+
+    def lib_strspn(self, args, s, it, n):
+        return self._span('strspn', args, s, it, n)
+
     def _write_block(self, dst, length, s, it, n, what, zero_from=None):
         """obligation + ghost for a block write of `length` bytes at dst"""
         outs = []
